@@ -8,8 +8,12 @@
           break } }
   `where` is a value receiver, but `where.Exprs` shares its backing array with the clause stored in the handle's
   Statement.Clauses, i.e. with every statement derived from a reusable handle (Session / clone copies map entries, not arrays).
+  Whether the swap assigns cells of that SHARED array (`where.Exprs[0], where.Exprs[idx] = …`, unchanged tree) or works on a
+  copy (`exprs := make; copy; swap; where.Exprs = exprs`) is READ from the regenerated `Gen.whereBuildElemAssigns`
+  (number of assignments to `where.Exprs[i]` in Where.Build).
   Core Lean only.
 -/
+import GormModel.Gen.AliasFacts
 namespace Gorm.WhereSwap
 
 /-- all that the loop inspects: is the expression an `OrConditions` with exactly one member -/
@@ -24,20 +28,33 @@ def firstOther : List EK → Nat → Option Nat
   | .other :: _, i => some i
   | .singleOr :: rest, i => firstOther rest (i + 1)
 
-/-- indices of the array that `Build` assigns (where.go:34) -/
-def writes (es : List EK) : List Nat :=
+/-- indices of the array that a `Build` which swaps IN PLACE assigns (where.go:34) -/
+def writesInPlace (es : List EK) : List Nat :=
   match firstOther es 0 with
   | some idx => if idx = 0 then [] else [0, idx]
   | none => []
+
+/-- REGENERATED: does `Where.Build` assign cells of `where.Exprs` (the shared array) at all? -/
+def swapsInPlace : Bool := Gen.whereBuildElemAssigns != 0
+
+/-- indices of the SHARED array that `Build` assigns: none when the swap is done on a copy -/
+def writesOf (inPlace : Bool) (es : List EK) : List Nat := if inPlace then writesInPlace es else []
+
+/-- … for the code that exists in the tree -/
+def writes (es : List EK) : List Nat := writesOf swapsInPlace es
 
 /-- the array after `Build` (swap of cells 0 and idx) -/
 def swap0 {α : Type} [Inhabited α] (l : List α) (idx : Nat) : List α :=
   (l.set 0 (l.getD idx default)).set idx (l.getD 0 default)
 
-def after {α : Type} [Inhabited α] (kind : α → EK) (l : List α) : List α :=
+def afterInPlace {α : Type} [Inhabited α] (kind : α → EK) (l : List α) : List α :=
   match firstOther (l.map kind) 0 with
   | some idx => if idx = 0 then l else swap0 l idx
   | none => l
+
+/-- the caller's array after `Build`: untouched when the swap is done on a copy -/
+def after {α : Type} [Inhabited α] (kind : α → EK) (l : List α) : List α :=
+  if swapsInPlace then afterInPlace kind l else l
 
 /-- an element of `where.Exprs`: a plain item, or an `AndConditions` group with its own member array -/
 inductive Item
